@@ -128,6 +128,104 @@ pub struct ExtremeCase {
     pub msg_counter: u64,
 }
 
+/// Genuine signatures over messages chosen for their VALUE (shared by C01 and C02: the library must
+/// sign them and accept its own signatures exactly as the reference verifier does).
+pub fn accepted_value_classes(ctx: &Ctx) {
+    // messages that are themselves objects of the scheme: the key's own LMS public keys (root and
+    // the children of the current chain), its HSS public key, its private key blob, a signature
+    let mut selfref: Vec<(HashId, Vec<Level>, u64)> = Vec::new();
+    for (hi, h) in ALL_HASHES.iter().enumerate() {
+        for (si, shape) in [vec![(4u32, 2u32), (8u32, 2u32)], vec![(8, 2), (4, 2), (2, 2)], vec![(8, 5)]].iter().enumerate() {
+            let total: u64 = 1u64 << shape.iter().map(|l| l.1).sum::<u32>();
+            for counter in [0u64, total / 2 + 1] {
+                if (hi + si) % 2 == 0 || counter == 0 {
+                    selfref.push((*h, shape.clone(), counter));
+                }
+            }
+        }
+    }
+    ctx.enumerate("self_referential_messages", selfref.len() as u64, false, |i| selfref[i as usize].clone(), |(h, levels, counter): &(HashId, Vec<Level>, u64)| {
+        use crate::refmodel::hss;
+        let n = h.n();
+        let m = compat_model(ctx, *h);
+        let seed = gen::expand(0x5e1f, n);
+        let blob = hss::private_key_blob(levels, *counter, &seed);
+        let pk = hss::public_key(&m, levels, &seed);
+        let probe = hss::sign(&m, levels, &seed, *counter as u128, b"probe");
+        let mut msgs: Vec<(String, Vec<u8>)> = vec![("root-lms-public-key".into(), pk[4..].to_vec()), ("hss-public-key".into(), pk.clone()), ("private-key-blob".into(), blob.clone()), ("a-signature".into(), probe.clone())];
+        if let Some(p) = hss::parse_signature(&m, &probe, 8) {
+            for (i, (s, e)) in p.pub_ranges.iter().enumerate() {
+                msgs.push((format!("child-lms-public-key-{}", i + 1), probe[*s..*e].to_vec()));
+            }
+        }
+        for (name, msg) in &msgs {
+            let sig = match libapi::sign(*h, msg, &blob, Cb::Accept, None).0 {
+                Out::Ok(s) => s,
+                o => return fail(format!("sign-{} self-referential", o.kind()), format!("sign {} for the message '{}' ({} counter {}): {:?}", o.kind(), name, levels_str(levels), counter, o.panic_msg())),
+            };
+            for (e, r) in libapi::verify_all(*h, msg, &sig, &pk).iter().enumerate() {
+                if !r.is_ok() {
+                    return fail(format!("verify-err self-referential entry={}", e), format!("the library rejects ({}) its own signature over the message '{}' ({} {} counter {})", r.kind(), name, h.name(), levels_str(levels), counter));
+                }
+            }
+            if !hss::verify(&m, msg, &sig, &pk) {
+                return fail("model-verify-rejects self-referential", format!("reference verifier rejects the signature over '{}'", name));
+            }
+        }
+        pass(format!("{}|L{}", h.name(), levels.len()), true)
+    });
+
+    // messages whose LM-OTS digest has a structured content (zero runs, repeated bytes, aligned
+    // zero / equal words, leading or trailing 0x00 / 0xff), found by a targeted search
+    let sc = structured_cases(ctx);
+    ctx.enumerate("structured_digests", sc.len() as u64, false, |i| sc[i as usize].clone(), |c: &StructCase| check_structured(ctx, c));
+    ctx.require_class("structured_digests", "sha256_256|w8|four-equal-neighbours");
+    ctx.require_class("structured_digests", "sha256_192|w4|equal-word-aligned");
+    ctx.require_class("structured_digests", "shake256_128|w1|leading-two-zero-bytes");
+
+    // valid signatures over messages whose digest has an extreme checksum (targeted search against
+    // the real (I, q, C) of leaf 0 of a small key): signer and verifier at the ends of the range
+    let mut ext: Vec<ExtremeCase> = Vec::new();
+    for h in ALL_HASHES {
+        for w in [1u32, 2, 4, 8] {
+            let cands: u64 = if h.n() == 32 && w <= 2 { ctx.tier.pick(1 << 24, 1 << 26) } else { ctx.tier.pick(1 << 22, 1 << 24) };
+            let n = h.n();
+            let seed = gen::expand(0xe7, n);
+            let levels = vec![(w, 2u32)];
+            let blob = crate::refmodel::hss::private_key_blob(&levels, 0, &seed);
+            if let Out::Ok(sig0) = libapi::sign(h, b"probe", &blob, Cb::Accept, None).0 {
+                if let Out::Ok((_, pk)) = lib_keygen_cached(h, &levels, &seed) {
+                    let t = super::wire::Triple { msg: vec![], sig: sig0, pk };
+                    for ctr in super::c06::grind_with(h, w, cands, &t) {
+                        ext.push(ExtremeCase { hash: h, w, msg_counter: ctr });
+                    }
+                }
+            }
+        }
+    }
+    ctx.enumerate("extreme_checksum_messages", ext.len() as u64, false, |i| ext[i as usize].clone(), |c: &ExtremeCase| {
+        let n = c.hash.n();
+        let seed = gen::expand(0xe7, n);
+        let levels = vec![(c.w, 2u32)];
+        let msg = c.msg_counter.to_be_bytes().to_vec();
+        let (_, pk) = match lib_keygen_cached(c.hash, &levels, &seed) {
+            Out::Ok(v) => v,
+            o => return fail(format!("keygen-{}", o.kind()), format!("{:?}", o.panic_msg())),
+        };
+        let blob = crate::refmodel::hss::private_key_blob(&levels, 0, &seed);
+        let sig = match libapi::sign(c.hash, &msg, &blob, Cb::Accept, None).0 {
+            Out::Ok(s) => s,
+            o => return fail(sign_failure_key(c.hash, &levels, o.kind()), format!("sign {} for a message whose digest has an extreme checksum: {:?}", o.kind(), o.panic_msg())),
+        };
+        for (i, r) in libapi::verify_all(c.hash, &msg, &sig, &pk).iter().enumerate() {
+            if !r.is_ok() {
+                return fail(format!("verify-{} entry={}", r.kind(), i), format!("signature over a message whose digest has an extreme checksum does not verify ({} W{} message counter {}): {:?}", c.hash.name(), c.w, c.msg_counter, r.panic_msg()));
+            }
+        }
+        pass(format!("extreme|{}|w{}", c.hash.name(), c.w), true)
+    });
+}
+
 pub fn run(ctx: &Ctx) {
     ctx.set_rule("random: (hash, 1..8 levels over W{1,2,4,8} x H{2,5,10} fitted to a cost budget, seed, counter from {0,1,last,last-1,subtree boundaries,random} written into the key blob, message from a length menu 0..8KiB) -> sign through hbs_lms::sign / SigningKey::try_sign / try_sign_with_aux, without aux data, with a zeroed aux buffer or with the buffer key generation filled -> must verify through verify(), VerifyingKey::verify(Signature) and (VerifierSignature); sweep: every counter of the complete lifetime of small shapes. Non-trivial = not the suite's point (3x W1/H5 at counter 0); distinct by serialized case.");
     ctx.assume("LmsH2 (type code 1) is enabled through the verif-hooks feature; production builds reject it");
@@ -224,99 +322,8 @@ pub fn run(ctx: &Ctx) {
         pass(format!("seed-from-array|{}", c.hash.name()), true)
     });
 
-    // messages that are themselves objects of the scheme: the key's own LMS public keys (root and
-    // the children of the current chain), its HSS public key, its private key blob, a signature
-    let mut selfref: Vec<(HashId, Vec<Level>, u64)> = Vec::new();
-    for (hi, h) in ALL_HASHES.iter().enumerate() {
-        for (si, shape) in [vec![(4u32, 2u32), (8u32, 2u32)], vec![(8, 2), (4, 2), (2, 2)], vec![(8, 5)]].iter().enumerate() {
-            let total: u64 = 1u64 << shape.iter().map(|l| l.1).sum::<u32>();
-            for counter in [0u64, total / 2 + 1] {
-                if (hi + si) % 2 == 0 || counter == 0 {
-                    selfref.push((*h, shape.clone(), counter));
-                }
-            }
-        }
-    }
-    ctx.enumerate("self_referential_messages", selfref.len() as u64, false, |i| selfref[i as usize].clone(), |(h, levels, counter): &(HashId, Vec<Level>, u64)| {
-        use crate::refmodel::hss;
-        let n = h.n();
-        let m = compat_model(ctx, *h);
-        let seed = gen::expand(0x5e1f, n);
-        let blob = hss::private_key_blob(levels, *counter, &seed);
-        let pk = hss::public_key(&m, levels, &seed);
-        let probe = hss::sign(&m, levels, &seed, *counter as u128, b"probe");
-        let mut msgs: Vec<(String, Vec<u8>)> = vec![("root-lms-public-key".into(), pk[4..].to_vec()), ("hss-public-key".into(), pk.clone()), ("private-key-blob".into(), blob.clone()), ("a-signature".into(), probe.clone())];
-        if let Some(p) = hss::parse_signature(&m, &probe, 8) {
-            for (i, (s, e)) in p.pub_ranges.iter().enumerate() {
-                msgs.push((format!("child-lms-public-key-{}", i + 1), probe[*s..*e].to_vec()));
-            }
-        }
-        for (name, msg) in &msgs {
-            let sig = match libapi::sign(*h, msg, &blob, Cb::Accept, None).0 {
-                Out::Ok(s) => s,
-                o => return fail(format!("sign-{} self-referential", o.kind()), format!("sign {} for the message '{}' ({} counter {}): {:?}", o.kind(), name, levels_str(levels), counter, o.panic_msg())),
-            };
-            for (e, r) in libapi::verify_all(*h, msg, &sig, &pk).iter().enumerate() {
-                if !r.is_ok() {
-                    return fail(format!("verify-err self-referential entry={}", e), format!("the library rejects ({}) its own signature over the message '{}' ({} {} counter {})", r.kind(), name, h.name(), levels_str(levels), counter));
-                }
-            }
-            if !hss::verify(&m, msg, &sig, &pk) {
-                return fail("model-verify-rejects self-referential", format!("reference verifier rejects the signature over '{}'", name));
-            }
-        }
-        pass(format!("{}|L{}", h.name(), levels.len()), true)
-    });
+    accepted_value_classes(ctx);
 
-    // messages whose LM-OTS digest has a structured content (zero runs, repeated bytes, aligned
-    // zero / equal words, leading or trailing 0x00 / 0xff), found by a targeted search
-    let sc = structured_cases(ctx);
-    ctx.enumerate("structured_digests", sc.len() as u64, false, |i| sc[i as usize].clone(), |c: &StructCase| check_structured(ctx, c));
-    ctx.require_class("structured_digests", "sha256_256|w8|four-equal-neighbours");
-    ctx.require_class("structured_digests", "sha256_192|w4|equal-word-aligned");
-    ctx.require_class("structured_digests", "shake256_128|w1|leading-two-zero-bytes");
-
-    // valid signatures over messages whose digest has an extreme checksum (targeted search against
-    // the real (I, q, C) of leaf 0 of a small key): signer and verifier at the ends of the range
-    let mut ext: Vec<ExtremeCase> = Vec::new();
-    for h in ALL_HASHES {
-        for w in [1u32, 2, 4, 8] {
-            let cands: u64 = if h.n() == 32 && w <= 2 { ctx.tier.pick(1 << 24, 1 << 26) } else { ctx.tier.pick(1 << 22, 1 << 24) };
-            let n = h.n();
-            let seed = gen::expand(0xe7, n);
-            let levels = vec![(w, 2u32)];
-            let blob = crate::refmodel::hss::private_key_blob(&levels, 0, &seed);
-            if let Out::Ok(sig0) = libapi::sign(h, b"probe", &blob, Cb::Accept, None).0 {
-                if let Out::Ok((_, pk)) = lib_keygen_cached(h, &levels, &seed) {
-                    let t = super::wire::Triple { msg: vec![], sig: sig0, pk };
-                    for ctr in super::c06::grind_with(h, w, cands, &t) {
-                        ext.push(ExtremeCase { hash: h, w, msg_counter: ctr });
-                    }
-                }
-            }
-        }
-    }
-    ctx.enumerate("extreme_checksum_messages", ext.len() as u64, false, |i| ext[i as usize].clone(), |c: &ExtremeCase| {
-        let n = c.hash.n();
-        let seed = gen::expand(0xe7, n);
-        let levels = vec![(c.w, 2u32)];
-        let msg = c.msg_counter.to_be_bytes().to_vec();
-        let (_, pk) = match lib_keygen_cached(c.hash, &levels, &seed) {
-            Out::Ok(v) => v,
-            o => return fail(format!("keygen-{}", o.kind()), format!("{:?}", o.panic_msg())),
-        };
-        let blob = crate::refmodel::hss::private_key_blob(&levels, 0, &seed);
-        let sig = match libapi::sign(c.hash, &msg, &blob, Cb::Accept, None).0 {
-            Out::Ok(s) => s,
-            o => return fail(sign_failure_key(c.hash, &levels, o.kind()), format!("sign {} for a message whose digest has an extreme checksum: {:?}", o.kind(), o.panic_msg())),
-        };
-        for (i, r) in libapi::verify_all(c.hash, &msg, &sig, &pk).iter().enumerate() {
-            if !r.is_ok() {
-                return fail(format!("verify-{} entry={}", r.kind(), i), format!("signature over a message whose digest has an extreme checksum does not verify ({} W{} message counter {}): {:?}", c.hash.name(), c.w, c.msg_counter, r.panic_msg()));
-            }
-        }
-        pass(format!("extreme|{}|w{}", c.hash.name(), c.w), true)
-    });
 
     // a tall root tree with an aux buffer large enough to cache levels bigger than 64 KiB
     let tall: Vec<SweepCase> = vec![
